@@ -341,6 +341,14 @@ def make_case(rng, i):
     elif rng.random() < .2 and not any(n in files for n in ('spike_clusters.npy', 'spikes.clusters.npy')):
         # (with curated clusters the loader derives cluster waveforms from the templates, NaN cells are then out of scope)
         tdata[rng.randrange(len(tdata))] = 'nan'; tags.append('some_nan_in_template')
+    elif rng.random() < .3 and not any(n in files for n in ('spike_clusters.npy', 'spikes.clusters.npy')):
+        # one channel of one template is NaN on every sample (a dead channel): only templates that are NaN
+        # EVERYWHERE are emptied by the loader.  (Un-curated datasets only: with curated clusters the loader
+        # ranks channels by amplitude at load time, which is undefined on NaN - outside the property.)
+        t, c = rng.randrange(nt), rng.randrange(nloc)
+        for s_ in range(nsw):
+            tdata[(t * nsw + s_) * nloc + c] = 'nan'
+        tags.append('nan_channel_in_template')
     files[N('templates.npy', 'templates.waveforms.npy')] = F('float32', [nt, nsw, nloc], tdata)
     if sparse:
         files[N('template_ind.npy', 'templates.waveformsChannels.npy')] = F('int32', [nt, nloc], [c for _ in range(nt) for c in rng.sample(range(nc), nloc)])
